@@ -50,6 +50,14 @@ type attempt struct {
 	ConnStatus           string   `json:"nats_conn_status_at_return,omitempty"`
 	First                *attempt `json:"earlier_call_with_stalled_send,omitempty"` // afterstalled*: the call made first on the same transport
 	PeerRequests         int      `json:"peer_requests_seen,omitempty"`
+	FaultBeforeReturn    bool     `json:"fault_injected_before_return,omitempty"` // closedpending / brokerlost
+	OpenAtReturn         string   `json:"transport_open_at_return,omitempty"`
+	Calls                int      `json:"burst_calls,omitempty"` // lateburst: ElapsedNS is the slowest call
+	CallsTimedOut        int      `json:"burst_calls_timed_out,omitempty"`
+	CallsRaced           int      `json:"burst_calls_answer_raced_timeout,omitempty"`
+	CallsNeverReturned   int      `json:"burst_calls_never_returned,omitempty"`
+	MedianCall           string   `json:"burst_median_call,omitempty"`
+	BurstWall            string   `json:"burst_wall,omitempty"`
 	Reuse                *attempt `json:"reused_fctx_request,omitempty"` // publishrefused: the next request with the same FContext
 }
 
@@ -129,6 +137,7 @@ type callSpec struct {
 	payload []byte
 	want    []byte // expected result bytes when the peer answers
 	flags   *peerFlags
+	shared  bool   // other calls are in flight on the same transport: no per-call registry check
 	release func() // make the peer let go of everything, so that a stuck call can come back
 }
 
@@ -198,6 +207,9 @@ func invoke(cs callSpec) *attempt {
 		}
 	}
 	a.RegAfterPoll = a.RegAtReturn
+	if cs.shared {
+		a.RegAtReturn, a.RegAfterPoll = 0, 0
+	}
 	for dl := time.Now().Add(c13RegPoll); a.RegAfterPoll > 0 && time.Now().Before(dl); {
 		time.Sleep(5 * time.Millisecond)
 		a.RegAfterPoll = frugal.VerifRegistrySize(cs.tr)
@@ -394,6 +406,8 @@ type c13env struct {
 	smallClient *nats.Conn
 	smallPeer   *nats.Conn
 	smallErr    error
+
+	burstCalls int // calls per caller in a lateburst case
 }
 
 func newC13Env() (*c13env, error) {
